@@ -33,7 +33,7 @@ from pathlib import Path
 from harness.translate import c01_dispatch, c01_tables
 
 ID = "C01"
-LEVEL_TEXT = ("25 theorems (all closed under the global context) about a Gallina model of the static visitor, for ALL statement lists of an abstract "
+LEVEL_TEXT = ("27 theorems (all closed under the global context) about a Gallina model of the static visitor, for ALL statement lists of an abstract "
               "statement language (def/class/assign/annassign/__all__ +=/import/from-import/if/block/handler/docstring statement; any nesting, any "
               "duplication): (1) the stack-and-flag visitor machine (frame stack = Visitor.current, mutable type_guarded saved/restored by visit_if, "
               "events, Python errors) computes exactly a recursive level semantics in which the type-guard flag is an inherited attribute true only "
@@ -50,7 +50,9 @@ LEVEL_TEXT = ("25 theorems (all closed under the global context) about a Gallina
               "same list (its constant's span). (5) Raw modules (AST nodes tagged by class name) are lowered inside Coq by the dispatch tables "
               "regenerated from visitor.py / assignments.py (which kinds have a visit_ method, which targets get_name accepts, which parents make a "
               "re-assignment conditional, ...): all theorems hold for every raw module; a node kind without visit_ method is transparent; an "
-              "assignment binds nothing as soon as one target is rejected. (6) Source text: for every layout tree (gap / decorator / header / "
+              "assignment binds nothing as soon as one target is rejected; `__all__ += x`, `__all__.extend(x)` and `__all__.append(x)` are one "
+              "statement whose only effect, wherever evaluated, is to append well-formed items to the exports of a module that already has an "
+              "exports list. (6) Source text: for every layout tree (gap / decorator / header / "
               "continuation / parenthesis lines, any nesting) slicing the rendered lines by a reported span returns exactly the item's text "
               "(function/class from the first decorator line, property-attribute from the def line, docstring = the string constant's lines), and "
               "every member's reported span is the span of an item defining that very name with that kind. (7) The visibility ladders regenerated "
